@@ -3,8 +3,11 @@
 Copies a confirmed seeded change from /tmp/wt-out into /verif/seeded/<PROPERTY>-m<N>/ with meta.json."""
 import sys, os, shutil, json, re
 pid, mut, status, caught, note = sys.argv[1:6]
-src = f"/tmp/wt-out/{pid}/{mut}"
+rnd = os.environ.get("SEEDED_ROUND", "1")
+src = f"/tmp/wt-out/{pid}/{mut}" if rnd == "1" else f"/tmp/wt-out2/{pid}/{mut}"
 n = re.sub(r"\D", "", mut)
+if rnd != "1":
+    n = str(int(n) + 2)
 dst = f"/verif/seeded/{pid}-m{n}"
 os.makedirs(dst, exist_ok=True)
 shutil.copy(f"{src}/patch.diff", f"{dst}/patch.diff")
@@ -15,7 +18,7 @@ notes = open(f"{src}/notes.md").read() if os.path.exists(f"{src}/notes.md") else
 meta = {
     "id": f"{pid}-m{n}",
     "property": pid,
-    "origin": "independent sub-agent given only the property text and a scratch worktree",
+    "origin": "independent sub-agent given only the property text and a scratch worktree" + ("" if rnd == "1" else " (second round: also told which two changes were already known, to avoid repeating them)"),
     "needs_to_manifest": notes.strip().split("\n\n")[0][:1200],
     "confirmed_by_me": "tools/try_mutant.sh: patch applies to the worktree at /repo HEAD, package builds, existing suite unchanged (only the two baseline failures), demonstration fails with the change and passes without it",
     "demonstration": "demo_test.go.txt (copy into the repository root as a _test.go file; `go test -vet=off -count=1 -run <name> .`)",
